@@ -1,5 +1,7 @@
 import H4.Tools
 import H4.Driver.Util
+import H4.Gen.Fn.Repack
+import H4.Gen.Fn.Repack2
 namespace H4.Driver
 open H4.Tools
 
@@ -56,20 +58,50 @@ def showOptions (o : Options) : String :=
 
 def showTile (t : List Nat × List Nat) : String := showNatList t.1 ++ ";" ++ showNatList t.2
 
+/-! The functions TRANSLATED from the current C text of hrepack_parse.c / hrepack_utils.c (`H4.Gen.Fn.Repack`, `H4.Gen.Fn.Repack2`,
+    gen/c2lean.py) are run on the same argument string as the hand-written model: when the two differ (or the translated code reports
+    undefined behaviour / fuel exhaustion) the answer carries a ` GEN=…` suffix, which the comparison with the real code's answer reports
+    as a DIFF.  This validates the translator (and its strcmp / strncmp / atoi / isdigit builtins) against the compiled C. -/
+namespace GenRepack
+/-- the `char` cells of a byte string, and its NUL -/
+def cells (s : Str) : List Int := (s.map fun c => if c.toNat < 128 then (c.toNat : Int) else (c.toNat : Int) - 256) ++ [0]
+def bytesOf (l : List Int) : String := toHex (l.map fun c => UInt8.ofNat (c % 256).toNat)
+/-- row `i` of the object list: the cells up to its NUL -/
+def row (blk : List Int) (i : Nat) : String := bytesOf ((blk.drop (i * 256)).takeWhile (· ≠ 0))
+def rows (blk : List Int) (n : Int) : String :=
+  if n ≤ 0 then "-" else ",".intercalate ((List.range n.toNat).map (row blk))
+def tag (model : String) (ub oof : Bool) (gen : String) : String :=
+  if ub then s!"{model} GEN=ub" else if oof then s!"{model} GEN=oof" else if gen == model then model else s!"{model} GEN={gen}"
+def comp (s : Str) (model : String) : String :=
+  let r := H4.Gen.Fn.Repack.parse_comp (s.length + 2) (cells s) [-7] (-1) (-1) 4294967295
+  let ty := if r.comp_type ≥ 2147483648 then r.comp_type - 4294967296 else r.comp_type
+  let n := r.n_objs.getD 0 0
+  tag model r.ub r.oof (if r.retnull then "fail" else s!"ok {n} {rows r.obj_list_blk n} {ty} {r.comp_info}")
+def chunk (s : Str) (model : String) : String :=
+  let r := H4.Gen.Fn.Repack.parse_chunk (s.length + 2) (cells s) [-7] (List.replicate 32 (-5)) [-99]
+  let n := r.n_objs.getD 0 0
+  let rank := r.chunk_rank.getD 0 0
+  let lens := if rank > 0 then ",".intercalate ((r.chunk_lengths.take rank.toNat).map toString) else "-"
+  tag model r.ub r.oof (if r.retnull then "fail" else s!"ok {n} {rows r.obj_list_blk n} {rank} {lens}")
+def reserved (s : Str) (model : String) : String :=
+  let r := H4.Gen.Fn.Repack2.is_reserved 1 false (cells s)
+  tag model r.ub r.oof (toString r.ret)
+end GenRepack
+
 /-- engine `repack` -/
 def stepRepack (args : List String) : String :=
   match args with
   | ["parse_comp", h] =>
     match hexStr h with
-    | some s => match parseComp s with
+    | some s => GenRepack.comp s (match parseComp s with
       | some (n, names, c) => s!"ok {n} {showNames names} {c.type} {c.info}"
-      | none => "fail"
+      | none => "fail")
     | none => "bad-op"
   | ["parse_chunk", h] =>
     match hexStr h with
-    | some s => match parseChunk s with
+    | some s => GenRepack.chunk s (match parseChunk s with
       | some (n, names, ck) => s!"ok {n} {showNames names} {ck.rank} {showLens ck.lens (ck.rank > 0)}"
-      | none => "fail"
+      | none => "fail")
     | none => "bad-op"
   | "options" :: rest =>
     match takeArgs rest with
@@ -122,7 +154,7 @@ def stepRepack (args : List String) : String :=
     | _ => "bad-op"
   | ["reserved", h] =>
     match hexStr h with
-    | some c => if isReserved c then "1" else "0"
+    | some c => GenRepack.reserved c (if isReserved c then "1" else "0")
     | none => "bad-op"
   | "keep" :: n :: rest =>
     match n.toNat?, rest.mapM parseNode with
